@@ -437,3 +437,54 @@ CLAIMED.update({
          "note": STD_NOTE + ORDER_NOTE,
          "technique": "static analysis: evaluation of extracted CFGs over finite decision domains with ordered operation traces (K6/K11), path and who-writes rules (K3/K2/K1)"},
 })
+
+
+# ---- clauses added in the third phase (appended to the texts above so that MANIFEST says what the checks now decide)
+def _more(pid, text, technique=None):
+    CLAIMED[pid]["text"] = CLAIMED[pid]["text"].rstrip() + " " + text
+    if technique:
+        CLAIMED[pid]["technique"] = CLAIMED[pid]["technique"].rstrip() + "; " + technique
+
+
+_HEAP = ("evaluation of the extracted CFGs of buffer.c on an abstract heap (chains as objects, symbolic storage bytes, modelled malloc/free/memcpy) "
+         "compared with the byte-string model (K6)")
+_more("C12", "Added: one-step refinement of the byte-string model on abstract heap images — evbuffer_add, prepend, drain, pullup, copyout, remove, expand, expand_fast_, "
+             "remove_buffer, add_buffer and prepend_buffer are evaluated from 8 chain layouts (x 3 destination layouts for the two-buffer operations) and boundary argument values "
+             "(553 cases): afterwards the content (symbolic bytes), the return value, the bytes copied out, the pending callback counts and the representation invariant "
+             "(sizes within storage, total_len, last, acyclic list, *last_with_datap = last chain holding data) are the model's, every copy stays inside live chain storage and nothing "
+             "freed is touched again. This decides the inductive step of the property for those operations on that family of layouts, not for every layout; iterators, search, "
+             "references and reserve/commit remain declined.", _HEAP)
+_more("C13", "Added (C13-counts): after each operation of the C12 family n_add_for_cb / n_del_for_cb equal the bytes the operation added and removed (same heap evaluation).", _HEAP)
+_more("C14", "Added (C14-alloc-failure): the C12 operation family is re-evaluated with each single allocation made to fail: the call then reports failure with content, length, "
+             "counts and chain structure as before (or success with its full effect); dangling links to released chains are reported.", _HEAP)
+_more("C16", "Added (C16-read-structure): evbuffer_read with the real evbuffer_read_setup_vecs_ is evaluated on 6 chain layouts for every boundary value of the byte count the "
+             "kernel returns; the buffer must satisfy the evbuffer invariants afterwards (in particular *last_with_datap designates the chain that received the last byte).", _HEAP)
+_more("C08", "Added (C08-lock2-alias): the balance analysis is repeated in the world where the two locks of an EVLOCK_LOCK2/UNLOCK2 pair are one object; functions using the pair "
+             "macros must have the same net effect in both worlds.")
+_more("C21", "Added (C21-refill-eval): ev_token_bucket_update_ is evaluated with C integer semantics on a domain containing the 64-bit extremes (maximum up to 2^63-1, level down "
+             "to -(2^63-1), ticks up to 2^31) and must equal min(maximum, level + ticks*rate) computed exactly; the syntactic shape of the overflow guard is informational only.",
+      "typed evaluation of the extracted code on an extreme-value domain (K6)")
+_more("C22", "Added (C22-reconfigure): bufferevent_rate_limit_group_set_cfg and ev_token_bucket_init_(reinitialize) clip a level to min(level, new maximum) — a negative level "
+             "(debt) survives reconfiguration (typed evaluation; signed/unsigned conversions matter).", "typed evaluation (K6)")
+_more("C23", "Added: (b) the chunked reader under segmentation — evhttp_read_body/evhttp_handle_chunked_read evaluated on an abstract input buffer for nine valid chunked messages "
+             "(several chunks, one-byte chunks, hex case, zero padding, chunk data that is CRLF, chunk extensions with and without BWS, empty body) and six invalid size lines, each in "
+             "one piece, cut in two at every byte position and fed byte by byte: terminal action, body and leftover bytes equal RFC 9112 7.1 and do not depend on the cuts; "
+             "(c) received header lines are accepted exactly when the field name is a token directly followed by ':' (19 line forms), value trimmed. Found and repaired: chunk "
+             "extensions rejected; white space before the colon / non-token names accepted (\"Content-Length : n\" smuggling).",
+      "evaluation of the chunked reader on an abstract byte buffer under every two-way segmentation (K6)")
+_more("C24", "Added: the chunked reader under segmentation (same evaluation as C23, shared reader; chunk-extension defect repaired).",
+      "evaluation of the chunked reader on an abstract byte buffer under every two-way segmentation (K6)")
+_more("C32", "Added (C32-sha1-blocks): SHA1Update's block arithmetic — for every buffer fill 0..63 and every input length 0..140 plus block-boundary lengths up to 320 the 64-byte "
+             "blocks handed to SHA1Transform are exactly the consecutive blocks of (buffered + input) bytes, the remainder stays buffered, copies stay inside the 64-byte buffer and "
+             "the bit count advances by 8*len (uint32 wrap).", "typed evaluation with recorded copy/transform operations (K6/K4)")
+_more("C36", "Added (C36-case): the 0x20 case randomisation of request_new changes nothing but the case bit of ASCII letters — evaluated for all 256 byte values and both random bits.",
+      "exhaustive typed evaluation over byte values (K6)")
+_more("C40", "Added (C40-v4form): evutil_inet_ntop(AF_INET6) chooses an embedded-IPv4 text form only for addresses whose other words are zero (384 word patterns), so that the text "
+             "parses back to the same address.", "evaluation of the form decision over word patterns (K6)")
+for _p, _t in (("C20", "Added (C20-outbuf): appending output (re)adds the write event only when it is not already pending — a running write timeout is not pushed forward without progress."),
+               ("C25", "Added (C25-lines): every header line returned by evbuffer_readln is counted in headers_size before it is used or skipped (continuation lines included)."),
+               ("C30", "Added (C30-alias): the host reported for an alias is the evhttp that owns the matching alias, also for nested virtual hosts."),
+               ("C31", "Added (C31-consume): each decoded frame's payload is removed from the input exactly once per loop iteration."),
+               ("C34", "Added (C34-timer): a request's timeout is deleted only when the request is finished, suspended or re-transmitted on every path."),
+               ("C38", "Added (C38-cachettl): every store of addresses into a cache entry is followed by arming the entry's expiry timer with the answer's TTL.")):
+    _more(_p, _t)
